@@ -558,7 +558,7 @@ def _fp_candidate(b, crate):
         and not _TEST_RX.search(b["path"])
         and "/tests/" not in b["file"]
         and not b["file"].endswith("/tests.rs")
-        and "::_::" not in b["path"]
+        and not re.match(r"^[\w:]+::_::", b["path"])
         and "{" not in b["path"].rsplit("::", 1)[-1]
     )
 
